@@ -50,6 +50,7 @@ struct bitset {
     /// \param n number of characters to use from str
     /// \param zero alternate character for set bits in str
     /// \param one alternate character for unset bits in str
+    /// \pre `pos <= str.size()`
     template <typename CharT, typename Traits>
     explicit constexpr bitset(
         basic_string_view<CharT, Traits> const& str,
@@ -60,6 +61,7 @@ struct bitset {
     )
         : bitset(0ULL)
     {
+        TETL_PRECONDITION(pos <= str.size());
         auto const len = etl::min<decltype(pos)>(n, str.size() - pos);
         // only the first size() of the len characters are used [bitset.cons]
         auto const m = etl::min<decltype(pos)>(len, size());
